@@ -97,7 +97,14 @@ class Check(common.Check):
             else:
                 k = rng.choice([1, 2, 2, 3, 4, rng.randint(5, 20)])
                 d = ['t', [rng.choice(VALS) for _ in range(k)]]
-            params.append({'n': nm, 'ann': ann, 'd': d})
+            q = {'n': nm, 'ann': ann, 'd': d}
+            if i < nprep and rng.random() < 0.5:
+                # prepended parameters are not controls: whatever annotation they carry (a type hint, a
+                # string that is no rate name, a rate name) is ignored; the layout is a function of the
+                # non-prepended parameters only
+                q['ann'] = None
+                q['annraw'] = rng.choice(['list', 'int', 'object', "'signal'", "'audio'", "'ChannelList'", "'kr '"])
+            params.append(q)
         # python syntax: parameters without default must precede those with one
         seen_default = False
         for p in params:
@@ -454,6 +461,8 @@ class Check(common.Check):
             inc(f'levels:{min(len(levels), 4)}')
             if any(lv.get('prepend') for lv in levels):
                 inc('prepend')
+            if any(p.get('annraw') for lv in levels for p in lv['params']):
+                inc('prepended_param_with_non_rate_annotation')
             if c.get('specs') is not None:
                 inc('specs')
             if c.get('shared_rates'):
